@@ -214,7 +214,7 @@ theorem sim_scheme (c : Ctx) (W : c.Wf)
   unfold bScheme
   simp only []
   upsimp
-  refine R.sat_bind (findIf_spec c.a c.first c.last _ hl _ (p + 1) (by omega) (by omega)) ?_
+  refine R.sat_bind (findIf_specV c.a c.first c.last _ hl _ (p + 1) (by omega) (by omega)) ?_
   intro eos ⟨e1, e2, e3, e4⟩
   have e2' : eos ≤ c.last := by omega
   obtain ⟨hbody, hrest⟩ := Dl_scan_pos c.e c.a W.hu isSchemeChar schemeChar_ascii c.last hl (eos - (p + 1)) (p + 1) eos
